@@ -89,6 +89,30 @@ std::string pick_position(Tape& t, Report& rep)
     if (t.chance(1, 4))
     {
         rep.cls("c06:explosive_position");
+        if (t.chance(1, 2))
+        {
+            // as dense as the material rule allows (nine queens a side, no pawns): the quiescence search below a SINGLE
+            // frontier node runs for far more than 10^5 visits, so "the stop is only seen when this quiescence search
+            // returns" is distinguishable from "the stop is seen at the next poll" whatever the polling period is
+            for (int attempt = 0; attempt < 4; ++attempt)
+            {
+                ref::Pos p;
+                gen::place_kings(t, p, false);
+                for (int side = 0; side < 2; ++side)
+                    for (int i = 0; i < 9; ++i)
+                    {
+                        int sq = gen::free_square(t, p, false);
+                        if (sq >= 0) p.b[sq] = side ? 'q' : 'Q';
+                    }
+                p.wtm = t.flag();
+                gen::repair_not_to_move_check(p);
+                if (ref::domain_violation(p).empty() && ref::legal_moves(p).size() >= 2 && ref::count(p, 'Q') + ref::count(p, 'q') >= 12)
+                {
+                    rep.cls("c06:dense_queens_position");
+                    return ref::to_fen(p);
+                }
+            }
+        }
         if (t.flag())
             for (int i = 0; i < 6; ++i)
             {
@@ -110,7 +134,7 @@ std::string pick_position(Tape& t, Report& rep)
 // at once.  With realistic stacks (main search <= ~10 plies x <= 40 moves, quiescence <= 39 plies x captures only) that is a few
 // thousand visits; measured on the unchanged tree: <= 100 visits in 99% of schedules, maximum below 2,000.  The bound leaves a
 // factor of ten on top of the measured maximum.
-const long VISIT_BOUND = 20000;
+const long VISIT_BOUND = 45000;  // one full period of the engine's own limit poll (40,960 visits) plus unwinding: "as prompt as a time limit"
 
 // Free-running trials: no parking.  go infinite, let the search run for a generated number of node visits, then stop.  The
 // stop must be honoured wherever it lands (also in windows between the hook points).  The bound is counted from the moment the
